@@ -30,7 +30,14 @@ FUNCS = [
     ("Strides", "array.py", "get_strides", "LLI"),
     ("Offset", "array.py", "get_offset", "LL"),
     ("BoundCheck", "array.py", "bound_check", "LL"),
+    # methods of Chunk (the free-list entries of XBuffer): the object is a record of its attributes, a method that assigns to
+    # `self.<attr>` and returns self becomes a function returning the new record (O = a Chunk)
+    ("ChunkSize", "context.py", "Chunk.size", "O"),
+    ("ChunkOverlaps", "context.py", "Chunk.overlaps", "OO"),
+    ("ChunkMerge", "context.py", "Chunk.merge", "OO"),
 ]
+
+OBJ_FIELDS = ["start", "end"]      # attributes of a Chunk (set in Chunk.__init__; checked against the source below)
 
 
 class Unsupported(Exception):
@@ -47,6 +54,13 @@ class Tr:
         self.kinds = kinds
         self.declared = set(a.arg for a in fn.args.args)
         self.raises = any(isinstance(n, ast.Raise) for n in ast.walk(fn))
+        self.mutated = set()
+
+    def kind_of(self, name):
+        for a, k in zip(self.fn.args.args, self.kinds):
+            if a.arg == name:
+                return k
+        return None
 
     # ---- expressions -------------------------------------------------------------------------------------------
     def pat(self, t):
@@ -69,6 +83,10 @@ class Tr:
             return f"({x.value} : Int)"
         if isinstance(x, ast.Name):
             return x.id
+        if isinstance(x, ast.Attribute):
+            if isinstance(x.value, ast.Name) and x.attr in OBJ_FIELDS and self.kind_of(x.value.id) == "O":
+                return f"{x.value.id}.{x.attr}_"
+            raise Unsupported("attribute " + x.attr)
         if isinstance(x, ast.UnaryOp):
             if isinstance(x.op, ast.USub):
                 return f"(-{self.e(x.operand)})"
@@ -121,6 +139,8 @@ class Tr:
             if not isinstance(f, ast.Name):
                 raise Unsupported("call " + ast.dump(f))
             n, args = f.id, x.args
+            if n in ("min", "max") and len(args) == 2:
+                return f"({n} {self.e(args[0])} {self.e(args[1])})"
             if n == "len" and len(args) == 1:
                 return f"(Py.len {self.e(args[0])})"
             if n == "range" and len(args) == 1:
@@ -169,6 +189,12 @@ class Tr:
             if s.value is None:
                 return [ind + "return ()"]
             return [ind + f"return {self.e(s.value)}"]
+        if isinstance(s, ast.Assign) and len(s.targets) == 1 and isinstance(s.targets[0], ast.Attribute):
+            tg = s.targets[0]
+            if isinstance(tg.value, ast.Name) and tg.attr in OBJ_FIELDS and self.kind_of(tg.value.id) == "O":
+                self.mutated.add(tg.value.id)
+                return [ind + f"{tg.value.id} := {{ {tg.value.id} with {tg.attr}_ := {self.e(s.value)} }}"]
+            raise Unsupported("assignment to attribute " + tg.attr)
         if isinstance(s, ast.Assign):
             if len(s.targets) != 1 or not isinstance(s.targets[0], ast.Name):
                 raise Unsupported("assignment target")
@@ -197,10 +223,12 @@ class Tr:
         raise Unsupported("statement " + type(s).__name__)
 
     def lean(self, lname):
-        params = " ".join(f"({a.arg} : {'Int' if k == 'I' else 'List Int'})" for a, k in zip(self.fn.args.args, self.kinds))
+        ty = {"I": "Int", "L": "List Int", "O": "Py.Obj"}
+        objs = [a.arg for a, k in zip(self.fn.args.args, self.kinds) if k == "O"]
+        params = " ".join(f"({a.arg + ('0' if k == 'O' else '')} : {ty[k]})" for a, k in zip(self.fn.args.args, self.kinds))
         if len(self.fn.args.args) != len(self.kinds) or self.fn.args.vararg or self.fn.args.kwarg or self.fn.args.defaults:
             raise Unsupported("signature changed")
-        body = self.block(self.fn.body, "  ")
+        body = [f"  let mut {o} := {o}0" for o in objs] + self.block(self.fn.body, "  ")
         last = self.fn.body[-1]
         if self.raises:
             if not isinstance(last, ast.Return):
@@ -217,7 +245,18 @@ SIBLINGS = {}
 
 
 def find_function(tree, name):
-    for n in tree.body:
+    body = tree.body
+    if "." in name:
+        cname, name = name.split(".")
+        cls = [n for n in tree.body if isinstance(n, ast.ClassDef) and n.name == cname]
+        if not cls:
+            return None
+        body = cls[0].body
+        init = [n for n in body if isinstance(n, ast.FunctionDef) and n.name == "__init__"]
+        attrs = sorted({t.attr for n in ast.walk(init[0]) if isinstance(n, ast.Assign) for t in n.targets if isinstance(t, ast.Attribute)}) if init else []
+        if attrs != sorted(OBJ_FIELDS):
+            raise Unsupported(f"attributes of {cname} are {attrs}, the record has {sorted(OBJ_FIELDS)}")
+    for n in body:
         if isinstance(n, ast.FunctionDef) and n.name == name:
             return n
     return None
@@ -231,7 +270,7 @@ def generate(repo, out):
         SIBLINGS[func] = f"XoGen.{func.lstrip('_')}"
     for mod, fname, func, kinds in FUNCS:
         path = os.path.join(repo, "xobjects", fname)
-        lname = func.lstrip("_")
+        lname = func.lstrip("_").replace(".", "_")
         imports = ["import XoGen.Py"]
         header = f"/-! GENERATED by checks/pygen.py from xobjects/{fname} :: {func} - do not edit; rewritten from /repo's working tree on every run -/"
         try:
